@@ -11,7 +11,7 @@ thread_local! {
 }
 
 /// attach a channel socket to the E1 machine's CPU once per process; returns drained messages on demand
-fn ensure_socket(ctx: &mut Ctx) {
+pub fn ensure_socket(ctx: &mut Ctx) {
     CHAN.with(|c| {
         if c.borrow().is_none() {
             let (out_tx, out_rx) = channel();
@@ -22,7 +22,7 @@ fn ensure_socket(ctx: &mut Ctx) {
     });
 }
 
-fn drain() -> Vec<String> {
+pub fn drain() -> Vec<String> {
     CHAN.with(|c| c.borrow().as_ref().map(|(rx, _)| rx.try_iter().collect()).unwrap_or_default())
 }
 
@@ -132,6 +132,19 @@ pub fn write_scenarios(tier: Tier) -> Vec<WriteScn> {
             v.push(WriteScn { text: t, buf, arg: 0xffe900, pc: dom::CODE_DRAM, ccr: 0x2b });
         }
     }
+    // texts made of multi-byte characters only, behind 0..size-1 ASCII bytes: whatever fixed size a writer chunks at,
+    // one of these texts has a character across the chunk boundary
+    for ch in ["é", "€", "💡"] {
+        for lead in 0..ch.len() {
+            for total in [1000usize, 2100, 4096] {
+                let mut t: Vec<u8> = vec![b'x'; lead];
+                while t.len() + ch.len() <= total {
+                    t.extend_from_slice(ch.as_bytes());
+                }
+                v.push(WriteScn { text: t, buf: if lead % 2 == 0 { 0x480000 } else { 0xffd000 }, arg: 0xffe900, pc: dom::CODE_RAM, ccr: 0x08 });
+            }
+        }
+    }
     // newlines with long tails, and long lines before a newline (line-buffered console writers)
     for head in [0usize, 1, 27, 1023, 1024, 1025] {
         for tail in [0usize, 1, 1022, 1023, 1024, 1025, 1500, 3000] {
@@ -180,7 +193,7 @@ pub fn write_scenarios(tier: Tier) -> Vec<WriteScn> {
     v
 }
 
-fn setup_write(m: &mut Mach, s: &WriteScn) -> Case {
+pub fn setup_write(m: &mut Mach, s: &WriteScn) -> Case {
     let mut c = Case::new(s.pc, &[0x57, 0x00]);
     c.er = dom::background_regs();
     c.er[0] = 104;
